@@ -118,7 +118,17 @@ def fixed_construct_name_alone(src, ctx):
     return any(re.match(r"^[ \d]{5}[ 0]\s*\w+\s*:\s*$", l) for l in src.split("\n"))
 
 
+_XOP = re.compile(r"(?i)\boperator\s*\(\s*(\*\*|//|==|/=|<=|>=|[*/+\-<>]|\.\w+\.)\s*\)\s*\)")
+
+
+def extended_intrinsic_op_unanchored(src, ctx):
+    """`operator(+))`: Extended_Intrinsic_Op.match uses the un-anchored operator pattern, so
+    text that merely starts with an intrinsic operator ('+)') is taken as the operator"""
+    return ctx.get("kind") == "add-paren" and any(_XOP.search(strip_comment(l)) for l in src.split("\n"))
+
+
 PREDICATES = {
+    "C08": [extended_intrinsic_op_unanchored],
     "C01": [shared_label_do_inline_comment],
     "C11": [shared_label_do_inline_comment],
     "C04": [shared_label_do_inline_comment],
